@@ -379,6 +379,22 @@ func (this *RaftGroup) processConfChange(entry raftpb.Entry) error {
 
 	this.raftConfState = this.raft.ApplyConfChange(cc)
 
+	if cc.Type == raftpb.ConfChangeRemoveNode && cc.NodeID == this.transport.nodeId && this.isLeader() {
+		// Raft does not make a removed leader step down: it keeps sending heartbeats (so
+		// nobody else campaigns) and drops every proposal. Hand the leadership to the
+		// remaining member with the most up to date log.
+		var transferee, match uint64
+		for id, progress := range this.raft.Status().Progress {
+			if id != cc.NodeID && (transferee == 0 || progress.Match > match) {
+				transferee, match = id, progress.Match
+			}
+		}
+		if transferee != 0 {
+			this.log.Infof("This node was removed from the group. Transfer leadership to %16x", transferee)
+			this.raft.TransferLeadership(this.ctx, cc.NodeID, transferee)
+		}
+	}
+
 	this.confChangeWaitersMu.Lock()
 	if appliedC, exists := this.confChangeWaiters[cc.ID]; exists {
 		close(appliedC)
